@@ -96,9 +96,16 @@ def run_impl(tables, skip_dedup):
                                  always_inline_filling=False,
                                  max_inline_score=1.0,
                                  skip_deduplication=skip_dedup)
-    saved = WG.construct_surface_t4, WG.construct_volume_t4
-    WG.construct_surface_t4 = lambda parser: ({}, {})
-    WG.construct_volume_t4 = lambda *a, **k: stage0
+    from t4_geom_convert.Kernel.Volume import ConstructVolumeT4 as CV
+    from t4_geom_convert.Kernel.Surface import ConstructSurfaceT4 as CS
+    orig_v, orig_s = CV.construct_volume_t4, CS.construct_surface_t4
+    stubs = {orig_v: (lambda *a, **k: stage0), orig_s: (lambda parser: ({}, {}))}
+    patched = []
+    for mod in (CV, CS, WG):
+        for name, value in list(vars(mod).items()):
+            if value is orig_v or value is orig_s:
+                patched.append((mod, name, value))
+                setattr(mod, name, stubs[value])
     buf = io.StringIO()
     try:
       with contextlib.redirect_stdout(io.StringIO()):
@@ -111,7 +118,8 @@ def run_impl(tables, skip_dedup):
         except (KeyError, ValueError) as exc:
             return type(exc).__name__, buf.getvalue()
     finally:
-        WG.construct_surface_t4, WG.construct_volume_t4 = saved
+        for mod, name, value in patched:
+            setattr(mod, name, value)
     return '', buf.getvalue()
 
 
